@@ -1,7 +1,7 @@
 import SciVerif.Lemmas.StuckCore
 import SciVerif.Lemmas.Net
 import SciVerif.Lemmas.NetSlots
-import SciVerif.Lemmas.NetFine
+import SciVerif.Lemmas.NetPorts
 import SciVerif.Lemmas.Slots
 import SciVerif.Props.C16
 import SciVerif.Props.C08
@@ -42,7 +42,8 @@ and whether it returned; channel occupancy is the difference of two counters):
   head-of-queue forwarding (`Model/NetSlots.lean`) — by projecting stuck states onto the counting model; the
   abstraction "a created task always becomes forwardable" is thereby a theorem, given `cores v ≤ max`.
 * `c05_channel_ops_no_deadlock` / `_runs_are_finite` / `_complete` / `_capacity` / `_deadlock_root_cause`: the same statements for the
-  model in which every single channel operation is a step (`Model/NetFine.lean`): a process reads its in-ports
+  model in which every single channel operation is a step (`Model/NetPorts.lean`; a connection is an in-port, so
+  one process may feed several in-ports of another): a process reads its in-ports
   one after the other in any order, holding the items already read, and sends a finished task's outputs
   consumer by consumer, each send blocking on that consumer's channel alone — which is what `receiveOnInPorts`
   and the send loop of `Process.Run` do. The atomic `create` / `forward` of the counting model are thereby no
@@ -261,7 +262,7 @@ theorem c05_network_needs_buffer :
       (fun s => (stuckB (netChain2 1 0) s, s.term ⟨0, by omega⟩, s.term ⟨1, by omega⟩)) = some (true, false, false) := by decide
 
 /-! ### the network at the granularity of channel operations -/
-open SciVerif.Net SciVerif.NetFine in
+open SciVerif.Net SciVerif.NetPorts in
 /-- progress: whatever the order of the individual reads and sends so far, a reachable state with an unreturned
 process has an enabled channel operation -/
 theorem c05_channel_ops_no_deadlock {n : Nat} (net : Net n) (N : Nat) (hbal : balanced net N) (hac : acyclic net)
@@ -278,70 +279,84 @@ theorem c05_channel_ops_no_deadlock {n : Nat} (net : Net n) (N : Nat) (hbal : ba
   have := fno_stuck net N hbal hac hB s hinv hst v
   simp [hv] at this
 
-open SciVerif.Net SciVerif.NetFine in
+open SciVerif.Net SciVerif.NetPorts in
+/-- every run is finite: at most `2N + 1` steps per process and `2N` per connection -/
 theorem c05_channel_ops_runs_are_finite {n : Nat} (net : Net n) (N : Nat) (hbal : balanced net N)
     (ls : List (FLbl n)) (s : FSt n) (hr : frun net (finit n) ls = some s) :
-    ls.length ≤ n * (2 * N + 1) + n * (n * (2 * N)) := by
+    ls.length ≤ n * (2 * N + 1) + ports net * (2 * N) := by
   have := frun_mu net N hbal ls _ _ (finv_init net N) hr
   rw [fmu_init] at this
   omega
 
-open SciVerif.Net SciVerif.NetFine in
+open SciVerif.Net SciVerif.NetPorts in
 /-- a maximal run ends with every process returned after exactly `N` tasks, and on every connection all `N` items
 sent have been read: nothing is left in a channel or in a reader's hand -/
 theorem c05_channel_ops_complete {n : Nat} (net : Net n) (N : Nat) (hbal : balanced net N) (hac : acyclic net)
     (hB : 1 ≤ net.B) (ls : List (FLbl n)) (s : FSt n) (hr : frun net (finit n) ls = some s)
     (hmax : fstuck net s) :
-    (∀ v, s.term v = true ∧ s.c v = N ∧ s.f v = N) ∧ (∀ u w, u ∈ net.ins w → s.s u w = N ∧ s.r u w = N) := by
+    (∀ v, s.term v = true ∧ s.c v = N ∧ s.f v = N) ∧
+    (∀ w i, i < (net.ins w).length → s.s w i = N ∧ s.r w i = N) := by
   have hinv := frun_inv net N hbal ls _ _ (finv_init net N) hr
   have hall : ∀ v, s.term v = true ∧ s.c v = N ∧ s.f v = N := fun v =>
     have ht := fno_stuck net N hbal hac hB s hinv hmax v
     ⟨ht, hinv.tm v ht⟩
   refine ⟨hall, ?_⟩
-  intro u w hu
-  have h1 := hinv.sf u w hu
-  have h2 := hinv.rc u w hu
+  intro w i hi
+  obtain ⟨u, hu⟩ := sender_of_lt net w i hi
+  have h1 := hinv.sf w i u hu
+  have h2 := hinv.rc w i hi
   have := (hall u).2; have := (hall w).2
   omega
 
-open SciVerif.Net SciVerif.NetFine in
+open SciVerif.Net SciVerif.NetPorts in
 /-- no channel ever holds more than `B` items, and a reader holds at most one item per in-port in hand -/
 theorem c05_channel_ops_capacity {n : Nat} (net : Net n) (N : Nat) (hbal : balanced net N)
-    (ls : List (FLbl n)) (s : FSt n) (hr : frun net (finit n) ls = some s) (u w : Fin n) (hu : u ∈ net.ins w) :
-    s.s u w ≤ s.r u w + net.B ∧ s.r u w ≤ s.c w + 1 := by
+    (ls : List (FLbl n)) (s : FSt n) (hr : frun net (finit n) ls = some s) (w : Fin n) (i : Nat)
+    (hi : i < (net.ins w).length) : s.s w i ≤ s.r w i + net.B ∧ s.r w i ≤ s.c w + 1 := by
   have hinv := frun_inv net N hbal ls _ _ (finv_init net N) hr
-  exact ⟨hinv.cap u w hu, (hinv.rc u w hu).2.1⟩
+  exact ⟨hinv.cap w i hi, (hinv.rc w i hi).2.1⟩
 
-open SciVerif.Net SciVerif.NetFine in
+open SciVerif.Net SciVerif.NetPorts in
 /-- without any assumption on stream lengths, at the granularity of channel operations: a run that ends with an
-unreturned process contains an unreturned process blocked in a send to a consumer that has returned with at least
-`B` of its items unread — F20's abandoned port is the only way to get stuck here as well -/
+unreturned process contains an unreturned process blocked in a send on a connection whose reader has returned with
+at least `B` of its items unread — F20's abandoned port is the only way to get stuck here as well -/
 theorem c05_channel_ops_deadlock_root_cause {n : Nat} (net : Net n) (hac : acyclic net) (hB : 1 ≤ net.B)
     (ls : List (FLbl n)) (s : FSt n) (hr : frun net (finit n) ls = some s) (hmax : fstuck net s)
     (v0 : Fin n) (hv0 : s.term v0 = false) :
-    ∃ v w, v ∈ net.ins w ∧ s.term v = false ∧ s.term w = true ∧ s.r v w + net.B ≤ s.s v w :=
+    ∃ v w i, sender net w i = some v ∧ s.term v = false ∧ s.term w = true ∧ s.r w i + net.B ≤ s.s w i :=
   fstuck_root_cause net hac hB s (frun_inv0 net ls _ _ (finv0_init net) hr) hmax v0 hv0
 
-open SciVerif.Net SciVerif.NetFine in
+open SciVerif.Net SciVerif.NetPorts in
 /-- negative (F20) at this granularity: the join returns at its empty in-port, the other source blocks in its
 second send; the premises of the root-cause theorem are satisfiable -/
 theorem c05_channel_ops_unbalanced_deadlocks :
     (frun (netJoin 3 0 1) (finit 3)
-        [.terminate ⟨1, by omega⟩, .terminate ⟨2, by omega⟩, .create ⟨0, by omega⟩, .send ⟨0, by omega⟩ ⟨2, by omega⟩,
+        [.terminate ⟨1, by omega⟩, .terminate ⟨2, by omega⟩, .create ⟨0, by omega⟩, .send ⟨2, by omega⟩ 0,
          .forward ⟨0, by omega⟩, .create ⟨0, by omega⟩, .create ⟨0, by omega⟩]).map
-      (fun s => (fstuckB (netJoin 3 0 1) s, s.term ⟨0, by omega⟩, s.term ⟨2, by omega⟩, s.s ⟨0, by omega⟩ ⟨2, by omega⟩,
-                 s.r ⟨0, by omega⟩ ⟨2, by omega⟩)) = some (true, false, true, 1, 0) := by decide
+      (fun s => (fstuckB (netJoin 3 0 1) s, s.term ⟨0, by omega⟩, s.term ⟨2, by omega⟩, s.s ⟨2, by omega⟩ 0,
+                 s.r ⟨2, by omega⟩ 0)) = some (true, false, true, 1, 0) := by decide
 
-open SciVerif.Net SciVerif.NetFine in
+open SciVerif.Net SciVerif.NetPorts in
 /-- non-vacuity: in the join of two sources (B = 1) the reader takes the item of its second in-port first and holds
 it while the first source has not sent anything; the state is reachable, not stuck, and not final -/
 example : (frun (netJoin 2 2 1) (finit 3)
-      [.create ⟨1, by omega⟩, .send ⟨1, by omega⟩ ⟨2, by omega⟩, .forward ⟨1, by omega⟩, .recv ⟨2, by omega⟩ ⟨1, by omega⟩,
-       .create ⟨1, by omega⟩, .send ⟨1, by omega⟩ ⟨2, by omega⟩]).map
-      (fun s => (fstuckB (netJoin 2 2 1) s, s.r ⟨1, by omega⟩ ⟨2, by omega⟩, s.c ⟨2, by omega⟩, s.s ⟨1, by omega⟩ ⟨2, by omega⟩)) =
+      [.create ⟨1, by omega⟩, .send ⟨2, by omega⟩ 1, .forward ⟨1, by omega⟩, .recv ⟨2, by omega⟩ 1,
+       .create ⟨1, by omega⟩, .send ⟨2, by omega⟩ 1]).map
+      (fun s => (fstuckB (netJoin 2 2 1) s, s.r ⟨2, by omega⟩ 1, s.c ⟨2, by omega⟩, s.s ⟨2, by omega⟩ 1)) =
     some (false, 1, 0, 2) := by decide
 
-open SciVerif.Net SciVerif.NetFine in
+open SciVerif.Net SciVerif.NetPorts in
+/-- one process feeding two in-ports of the same consumer (a multi-edge): two connections, two sends per task -/
+def netDouble (N B : Nat) : Net 2 :=
+  { ins := fun v => if v.val = 1 then [⟨0, by omega⟩, ⟨0, by omega⟩] else [], src := fun _ => N, B := B }
+
+open SciVerif.Net SciVerif.NetPorts in
+example : (frun (netDouble 1 1) (finit 2)
+      [.create ⟨0, by omega⟩, .send ⟨1, by omega⟩ 1, .send ⟨1, by omega⟩ 0, .forward ⟨0, by omega⟩, .terminate ⟨0, by omega⟩,
+       .recv ⟨1, by omega⟩ 0, .recv ⟨1, by omega⟩ 1, .create ⟨1, by omega⟩, .forward ⟨1, by omega⟩, .terminate ⟨1, by omega⟩]).map
+      (fun s => (fstuckB (netDouble 1 1) s, s.term ⟨1, by omega⟩)) = some (true, true) := by decide
+
+open SciVerif.Net SciVerif.NetPorts in
 /-- negative (F18) at this granularity: with B = 0 no send is ever possible -/
 theorem c05_channel_ops_needs_buffer :
     (frun (netChain2 1 0) (finit 2) [.create ⟨0, by omega⟩]).map
